@@ -75,6 +75,77 @@ def _entries(api, args, kwargs):
     return None
 
 
+def _jclass(v):
+    if isinstance(v, bool): return "bool"
+    if isinstance(v, int): return "int"
+    if isinstance(v, float): return "float"
+    if v is None: return "null"
+    if isinstance(v, str): return "url" if v.startswith(("http://", "https://")) else "str"
+    if isinstance(v, list): return "list_str" if all(isinstance(x, str) for x in v) else "list_other"
+    if isinstance(v, dict): return "obj"
+    return "other"
+
+
+def _headers_info(api, args, kwargs):
+    """per entry: member names with the JSON class of their values, and the crit list - taken BEFORE the call runs"""
+    ents = _entries(api, args, kwargs)
+    if ents is None:
+        return None
+    out = []
+    for h in ents:
+        names = [str(k) for k in h]
+        crit = h.get("crit")
+        out.append({"names": names, "classes": [_jclass(h[k]) for k in h],
+                    "crit": [c for c in crit if isinstance(c, str)] if isinstance(crit, list) else [],
+                    "crit_list": isinstance(crit, list) and all(isinstance(c, str) for c in crit)})
+    return out
+
+
+def _registry_info(reg, side):
+    """strict flag and caller-registered parameters of the registry object the call was given"""
+    import joserfc.registry as jr
+    types = {jr.is_str: "str", jr.is_url: "url", jr.is_int: "int", jr.is_bool: "bool", jr.is_list_str: "list[str]", jr.is_jwk: "jwk"}
+    if reg is None:
+        return True, []
+    from joserfc.rfc7797 import JWSRegistry as R7797
+    std = [jr.JWS_HEADER_REGISTRY, jr.JWE_HEADER_REGISTRY, R7797.default_header_registry]
+    custom = []
+    for n, hp in (getattr(reg, "header_registry", {}) or {}).items():
+        if not any(d.get(n) is hp for d in std):          # a name the caller registered (or re-registered with another entry)
+            custom.append({"name": n, "type": types.get(hp.validate, "any"), "required": bool(hp.required)})
+    return bool(getattr(reg, "strict_check_header", True)), custom
+
+
+def _key_info(key):
+    """the key argument of a call, if it is a single key object (taken AFTER the call: reading it builds the key's JWK view,
+    which the call itself has done by then)"""
+    try:
+        from joserfc.rfc7517.models import BaseKey
+        if not isinstance(key, BaseKey):
+            return None
+        kty = key.key_type
+        bits = 0
+        if kty == "oct":
+            bits = len(key.raw_value) * 8
+        elif kty == "RSA":
+            bits = key.raw_value.key_size
+        ops = key.get("key_ops")
+        crv = key.get("crv") or ""
+        if kty == "EC" and not crv:
+            crv = {"secp256r1": "P-256", "secp384r1": "P-384", "secp521r1": "P-521", "secp256k1": "secp256k1"}.get(key.raw_value.curve.name, "")
+        return {"kty": kty, "crv": crv if isinstance(crv, str) else "", "bits": bits if bits < 2 ** 20 else 2 ** 20,
+                "use": key.get("use") if isinstance(key.get("use"), str) else "",
+                "ops_declared": ops is not None, "ops": [o for o in ops if isinstance(o, str)] if isinstance(ops, list) else [],
+                "priv": bool(key.is_private)}
+    except Exception:  # noqa
+        return None
+
+
+def _is7797(reg):
+    from joserfc.rfc7797 import JWSRegistry as R7797
+    return isinstance(reg, R7797)
+
+
 def _registered():
     from joserfc.jwe import JWERegistry
     out = []
@@ -83,7 +154,7 @@ def _registered():
     return out
 
 
-def _event(api, args, kwargs, outcome):
+def _event(api, args, kwargs, outcome, pre=None):
     global _seq
     from joserfc.jwe import JWERegistry
     name = api.rsplit(".", 1)[1]
@@ -110,6 +181,10 @@ def _event(api, args, kwargs, outcome):
             e = {k: (v if isinstance(v, str) else "#illtyped") for k, v in e.items()}
         es.append(e)
     reg_allowed = getattr(reg, "allowed", None) if reg is not None else None
+    strict, custom = _registry_info(reg, side)
+    kinfo = _key_info(bound.get("private_key", bound.get("public_key", bound.get("key"))))
+    nokey = {"kty": "", "crv": "", "bits": 0, "use": "", "ops_declared": False, "ops": [], "priv": False}
+    hdrs = pre if (pre is not None and len(pre) == len(es)) else []
     with _lock:
         _seq += 1
         ev = {"seq": _seq, "api": api.replace("joserfc.", ""), "side": side, "op": "produce" if name.startswith(("serialize", "encrypt", "encode")) else "consume",
@@ -119,7 +194,9 @@ def _event(api, args, kwargs, outcome):
               "registry_given": reg is not None,
               "registry_allowed": sorted(reg_allowed) if isinstance(reg_allowed, list) else [],
               "registry_has_list": bool(reg_allowed),
-              "reg": _registered(), "outcome": outcome}
+              "reg": _registered(), "outcome": outcome,
+              "headers": hdrs, "headers_judged": bool(hdrs) and judged, "strict": strict, "custom": custom, "api7797": "7797" in api, "reg7797": _is7797(reg),
+              "key": kinfo or nokey, "key_judged": kinfo is not None and judged and bound.get("sender_key") is None}
         _out.write(json.dumps(ev) + "\n")
         _out.flush()
 
@@ -130,6 +207,12 @@ def _wrap(api, fn):
         d = getattr(_depth, "n", 0)
         _depth.n = d + 1
         outcome = "ok"
+        pre = None
+        if d == 0:
+            try:
+                pre = _headers_info(api, args, kwargs)
+            except Exception:  # noqa
+                pre = None
         try:
             return fn(*args, **kwargs)
         except BaseException as e:  # noqa
@@ -139,11 +222,44 @@ def _wrap(api, fn):
             _depth.n = d
             if d == 0:
                 try:
-                    _event(api, args, kwargs, outcome)
+                    _event(api, args, kwargs, outcome, pre)
                 except Exception as ex:  # noqa  - tracing must never change behaviour
                     sys.stderr.write(f"[verif tracer] {api}: {ex!r}\n")
     w.__verif_wrapped__ = True
     return w
+
+
+def _install_claims(path):
+    """one event per ClaimsRegistry.validate call (also on the error path), for validation against Claims.tla"""
+    import joserfc.rfc7519.registry as cr
+    orig = cr.ClaimsRegistry.validate
+    if getattr(orig, "__verif_wrapped__", False):
+        return
+    out = open(path + ".claims", "a")
+
+    @functools.wraps(orig)
+    def validate(self, claims):
+        outcome = "ok"
+        try:
+            snap = json.loads(json.dumps(claims, default=lambda o: {"#unjson": type(o).__name__}))
+        except Exception:  # noqa
+            snap = None
+        try:
+            return orig(self, claims)
+        except BaseException as e:  # noqa
+            outcome = type(e).__name__
+            raise
+        finally:
+            try:
+                ev = {"now": getattr(self, "now", None), "leeway": getattr(self, "leeway", None), "cls": type(self).__name__,
+                      "options": json.loads(json.dumps(self.options, default=lambda o: {"#unjson": type(o).__name__})),
+                      "claims": snap, "outcome": outcome}
+                with _lock:
+                    out.write(json.dumps(ev) + "\n"); out.flush()
+            except Exception as ex:  # noqa
+                sys.stderr.write(f"[verif tracer] claims: {ex!r}\n")
+    validate.__verif_wrapped__ = True
+    cr.ClaimsRegistry.validate = validate
 
 
 def install(path=None):
@@ -154,6 +270,7 @@ def install(path=None):
     if not path:
         return
     _out = open(path, "a")
+    _install_claims(path)
     import importlib
     for mod, names in API.items():
         m = importlib.import_module(mod)
